@@ -99,14 +99,26 @@ def smallInts : List Cbor → Option Bytes
 
 def padTo (n : Nat) (b : Bytes) : Bytes := (b ++ List.replicate n 0).take n
 
-/-- `Point.UnmarshalCBOR` (repaired): `[]` = origin, `[slot, hash]`; nothing else. -/
-def decPoint (t : Cbor) : Option Val :=
+/-- the self-described-CBOR tag (55799), which fxamacker strips in front of any item it decodes -/
+def strip55799 : Cbor → Cbor
+  | .tag w n x => if n = 55799 then strip55799 x else .tag w n x
+  | x => x
+
+def pointPair (a h : Cbor) : Option Val :=
+  match a with
+  | .int false _ slot =>
+    (match strPayload false h with
+     | some hash => some (.s [.u slot, .h hash])
+     | none => none)
+  | _ => none
+
+/-- `Point.UnmarshalCBOR` (repaired): `[]` = origin, `[slot, hash]`; nothing else.
+    The items are decoded generically (`[]any`), so with `strip` (the tag-skipping of the
+    code as it is) a self-described-CBOR tag in front of slot or hash disappears. -/
+def decPoint (strip : Bool) (t : Cbor) : Option Val :=
   match items t with
   | some [] => some (.s [.u 0, .h []])
-  | some [.int false _ slot, h] =>
-    match strPayload false h with
-    | some hash => some (.s [.u slot, .h hash])
-    | none => none
+  | some [a, h] => if strip then pointPair (strip55799 a) (strip55799 h) else pointPair a h
   | _ => none
 
 /-- `Point.UnmarshalCBOR` as found: any list (and null) that is not a pair is origin. -/
@@ -173,8 +185,11 @@ mutual
 def decVal (lax : Mode) : Shape → Cbor → Option Val
   | s, .tag w n x =>
     match s with
-    | .raw => some (.r (enc (.tag w n x)))
-    | .point => none
+    | .raw =>
+      -- fxamacker strips the self-described-CBOR tag (55799) before it hands the item to any
+      -- destination, RawMessage and Unmarshaler types included
+      if n = 55799 then decVal lax .raw x else some (.r (enc (.tag w n x)))
+    | .point => if lax.tags && n == 55799 then decVal lax .point x else none
     | .opaque => none
     | .bytes =>
       -- `#6.24(bytes)` (encoded CBOR) is the wire form of the byte fields that carry blocks and
@@ -184,7 +199,7 @@ def decVal (lax : Mode) : Shape → Cbor → Option Val
   | s, .arr w xs =>
     match s with
     | .raw => some (.r (enc (.arr w xs)))
-    | .point => decPoint (.arr w xs)
+    | .point => decPoint lax.tags (.arr w xs)
     | .list e => (decList lax e xs).map .l
     | .struct fs => (decFields lax fs xs).map .s
     | .bytes => if lax.arr then (smallInts xs).map .h else none
@@ -193,7 +208,7 @@ def decVal (lax : Mode) : Shape → Cbor → Option Val
   | s, .arrI xs =>
     match s with
     | .raw => some (.r (enc (.arrI xs)))
-    | .point => decPoint (.arrI xs)
+    | .point => decPoint lax.tags (.arrI xs)
     | .list e => (decList lax e xs).map .l
     | .struct fs => (decFields lax fs xs).map .s
     | .bytes => if lax.arr then (smallInts xs).map .h else none
@@ -234,6 +249,78 @@ def decFields (lax : Mode) : List Shape → List Cbor → Option (List Val)
     | some v, some vs => some (v :: vs)
     | _, _ => none
   | _, _ => none
+end
+
+/-! ### `conforms`: the shape a message type requires, stated without building any value
+    (arity of every struct, kind and width of every field, a point = `[]` or `[slot, hash]`,
+    `#6.24(bytes)` admitted for byte fields). `GV.Proofs.MsgCodec.strict_iff_conforms` shows the
+    strict reading accepts exactly the conforming trees. -/
+def leafConforms (s : Shape) (t : Cbor) : Bool :=
+  match s, t with
+  | .raw, _ => true
+  | .uint bits, .int false _ n => decide (n < 2 ^ bits)
+  | .bool, .prim .w0 20 => true
+  | .bool, .prim .w0 21 => true
+  | .text, .str true _ _ => true
+  | .text, .strI true _ => true
+  | .bytes, .str false _ _ => true
+  | .bytes, .strI false _ => true
+  | .fixed n, .str false _ b => decide (b.length = n)
+  | .fixed n, .strI false cs => decide ((chunkBytes cs).length = n)
+  | _, _ => false
+
+def pointConforms : List Cbor → Bool
+  | [] => true
+  | [.int false _ _, .str false _ _] => true
+  | [.int false _ _, .strI false _] => true
+  | _ => false
+
+mutual
+def conforms : Shape → Cbor → Bool
+  | s, .tag _ n x =>
+    match s with
+    | .raw => true
+    | .bytes => n == 24 && conforms .bytes x
+    | _ => false
+  | s, .arr _ xs =>
+    match s with
+    | .raw => true
+    | .point => pointConforms xs
+    | .list e => conformsL e xs
+    | .struct fs => conformsF fs xs
+    | _ => false
+  | s, .arrI xs =>
+    match s with
+    | .raw => true
+    | .point => pointConforms xs
+    | .list e => conformsL e xs
+    | .struct fs => conformsF fs xs
+    | _ => false
+  | s, .map _ xs =>
+    match s with
+    | .raw => true
+    | .map k v => conformsM k v xs
+    | _ => false
+  | s, .mapI xs =>
+    match s with
+    | .raw => true
+    | .map k v => conformsM k v xs
+    | _ => false
+  | s, .int neg w n => leafConforms s (.int neg w n)
+  | s, .str txt w b => leafConforms s (.str txt w b)
+  | s, .strI txt cs => leafConforms s (.strI txt cs)
+  | s, .prim w n => leafConforms s (.prim w n)
+def conformsL (e : Shape) : List Cbor → Bool
+  | [] => true
+  | x :: xs => conforms e x && conformsL e xs
+def conformsF : List Shape → List Cbor → Bool
+  | [], [] => true
+  | f :: fs, x :: xs => conforms f x && conformsF fs xs
+  | _, _ => false
+def conformsM (k v : Shape) : List Cbor → Bool
+  | [] => true
+  | [_] => false
+  | x :: y :: xs => conforms k x && conforms v y && conformsM k v xs
 end
 
 /-- keys of a flattened entry list -/
